@@ -101,6 +101,12 @@ def TW.compactUp (a : TW Node) (target : Option Path) : TW Node :=
   | some t => TW.compactLoop H cfg (a.pos.length - (sharedBits a.pos t + 1)) a
   | none => TW.compactLoop H cfg a.pos.length a
 
+/-- the descent of the visitor: the first bit carries the freshness hint when the walker still is at the start depth -/
+def TW.descend (startDepth : Nat) (a : TW Node) (down : List Bool) : TW Node :=
+  match decide (a.pos.length > startDepth), down with
+  | false, d0 :: drest => (a.down cfg [d0] (decide (dip a.pos = DEPTH) || decide (a.pos = []))).down cfg drest true
+  | _, d => a.down cfg d true
+
 /-- the visitor of `replace_terminal` -/
 def TW.visit (startDepth : Nat) (a : TW Node) (c : WriteNode Node VH) : TW Node :=
   let a1 : TW Node :=
@@ -116,13 +122,7 @@ def TW.visit (startDepth : Nat) (a : TW Node) (c : WriteNode Node VH) : TW Node 
       if d0 = !(a1.pos.getLast?.getD false) then ({ a1 with pos := sibPath a1.pos }, drest) else (a1.up, d0 :: drest)
     | true, [] => (a1.up, [])
     | false, d => (a1, d)
-  let a := a2.1
-  let down := a2.2
-  let a3 : TW Node :=
-    match decide (a.pos.length > startDepth), down with
-    | false, d0 :: drest => (a.down cfg [d0] (decide (dip a.pos = DEPTH) || decide (a.pos = []))).down cfg drest true
-    | _, d => a.down cfg d true
-  a3.setNode (c.node H)
+  (a2.1.descend cfg startDepth a2.2).setNode (c.node H)
 
 def TW.visitAll (startDepth : Nat) (a : TW Node) : List (WriteNode Node VH) → TW Node
   | [] => a
